@@ -49,7 +49,8 @@ def main():
                 for p in props:
                     t0 = time.time()
                     env = dict(os.environ, VERIF_REPO=tree)
-                    rc, out = sh([os.path.join(VERIF, "check"), p, "--tier", a.tier], cwd=VERIF, env=env)
+                    tier = meta.get("also_tier", a.tier) if p != meta["property"] else a.tier
+                    rc, out = sh([os.path.join(VERIF, "check"), p, "--tier", tier], cwd=VERIF, env=env)
                     viol = [l for l in out.splitlines() if l.startswith("VIOLATION")]
                     verdict = "caught" if rc == 1 and viol else ("MISSED" if rc == 0 else f"error rc={rc}")
                     rows.append((sid, p, verdict, (viol[0] if viol else out.strip().splitlines()[-1] if out.strip() else "")[:260]))
